@@ -880,5 +880,18 @@ pub fn replay(cfg: &Cfg, prop: &str) -> Report {
     });
     rep.stats.merge(s);
     rep.rule = "replay of one recorded schema tree".into();
+    if rep.stats.violations.is_empty() && rep.stats.inconclusive.is_empty() {
+        // the recorded tree alone is clean: the violation may depend on what the same thread converted, hashed or
+        // rendered before (caches, state kept across calls); re-run the quick workload that produced it
+        let c = Cfg { replay: None, tier: Tier::Quick, ..cfg.clone() };
+        let mut r = match prop {
+            "C15" => run_c15(&c),
+            "C16" => run_c16(&c),
+            _ => run_c19(&c),
+        };
+        r.floors.clear();
+        r.rule = "replay: the recorded tree alone no longer violates; the quick workload was re-run to cover history-dependent behaviour".into();
+        return r;
+    }
     rep
 }
